@@ -99,6 +99,7 @@ type Explorer struct {
 	builders  map[*value]string
 	env       map[string]value
 	onces     map[*value]bool
+	syncMaps  map[*value]*syncMapModel
 	interp    *interpreter
 	steps     int
 	violated  bool
